@@ -1,14 +1,14 @@
 (* Property C28 — "Loggers write every accepted line exactly once, in order".
    Only theorem statements: each is closed by [exact] of a lemma proved in C28/LoggerQProofs.v,
-   C28/OracleLink.v or C28/OrigWitness.v and followed by Print Assumptions.
+   C28/OracleLink.v, C28/OrigWitness.v or C28/MidWitness.v and followed by Print Assumptions.
 
    Vocabulary.  [run sched (init m ps)]: the interleaving model of C28/LoggerQ.v (the code after
-   the repairs c53d854 and 4b85524) started with level mask m and one program (list of
+   the repairs c53d854, 4b85524 and aa7ec53) started with level mask m and one program (list of
    (level, text) submit calls) per producer thread, executed under the schedule [sched] (a list
    of thread ids: P i, Cons = the logger's own thread, Stop = the thread calling stop()); every
    "forall sched" below is for ALL schedules, any number of producers and any programs.  One
    step of a thread is one atomic action: a whole send (the level test is thread-local, the push
-   is atomic by C30), one try_pop, one load of _stopping, one line written, one of the three
+   is atomic by C30), one load of _stopping (the sample), one try_pop, one line written, one of the three
    statements of stop().
    Ghost: [pushed c] all queue pushes so far, in order; [wrote c] the queue elements written so
    far, in file order (the file holds their texts: first clause of c28_order); [q_src x] the
@@ -21,7 +21,7 @@
    property C30 (coq/C30), not proved here. *)
 From Coq Require Import ZArith List Bool.
 From F8 Require Import C28.Spec_C28 C28.LoggerQ C28.LoggerQProofs C28.OracleLink.
-From F8 Require C28.LoggerQOrig C28.OrigWitness.
+From F8 Require C28.LoggerQOrig C28.OrigWitness C28.LoggerQMid C28.MidWitness.
 Import ListNotations.
 
 (* Order: what is written of one producer is, in order, an initial part of the lines it
@@ -71,44 +71,46 @@ Theorem c28_at_stop : forall c1 s2, stopper c1 = SIdle ->
 Proof. exact c28_at_stop_lemma. Qed.
 Print Assumptions c28_at_stop.
 
-(* Every line accepted before stop() is written before stop() returns -- for all schedules, with
-   the one exception the repaired loop still has: [win c], the lines pushed between the logger
-   thread's last unsuccessful try_pop and the load of _stopping that follows it (two separate
-   atomic actions: "if (!try_pop(..)) { if (_stopping) break; ..").  Hypothesis [no_marker]: no
-   program submits an empty text at an enabled level (finding C28-empty-line-stops-logger).
-   A consumer that finds the queue empty AFTER the stop request and leaves before the marker is
-   pushed is covered: everything in [at_stop] is then already written. *)
+(* Every line accepted before stop() is written exactly once before stop() returns: for ALL
+   schedules, when stop() has returned, every element of [at_stop] (the queue history at the
+   stop request) is among the written elements, and no submit call is written twice.
+   Hypothesis [no_marker]: no program submits an empty text at an enabled level (finding
+   C28-empty-line-stops-logger).  Why it holds: the logger thread leaves its loop either on the
+   marker, which stop() pushes after the request and which is therefore behind every element of
+   [at_stop] in the FIFO, or after a try_pop that found the queue empty with a sample of
+   _stopping that was true, i.e. taken after the request: everything pushed before the request
+   was pushed before that try_pop, so it has been popped and written. *)
 Theorem c28_all_written : forall m ps, no_marker m ps = true -> forall sched,
   let c := run sched (init m ps) in
   stopper c = SDone ->
-  forall x, In x (at_stop c) -> In x (wrote c) \/ In x (win c).
+  (forall x, In x (at_stop c) -> In x (wrote c)) /\ NoDup (map q_src (wrote c)).
 Proof. exact c28_all_written_lemma. Qed.
 Print Assumptions c28_all_written.
 
-(* The exception is real (so the statement above cannot be strengthened for this code): the
-   logger thread finds the queue empty, a line is accepted, stop() requests the stop, the logger
-   thread loads _stopping = true and leaves; stop() returns, the accepted line is never written.
-   Repair: load _stopping BEFORE try_pop ("const bool s(_stopping); if (!try_pop(..)) { if (s) break; ..").  *)
-Theorem c28_stop_window_refuted :
+(* The INTERMEDIATE code (after 4b85524, before aa7ec53; model C28/LoggerQMid.v) loaded _stopping
+   only after an unsuccessful try_pop: the logger thread finds the queue empty, a line is
+   accepted, stop() requests the stop, the thread loads _stopping = true and leaves; stop()
+   returns, the accepted line is never written. *)
+Theorem c28_stop_window_intermediate_refuted :
   exists m ps sched,
-    let c := run sched (init m ps) in
-    no_marker m ps = true /\ stopper c = SDone /\
-    at_stop c = [{| q_src := Some (O, O); q_text := [65%Z] |}] /\
-    map rets (prods c) = [[true]] /\
-    wrote c = [] /\ win c = [{| q_src := Some (O, O); q_text := [65%Z] |}] /\
-    file_complete m ps (observe c) = false.
-Proof. exact c28_stop_window_refuted_lemma. Qed.
-Print Assumptions c28_stop_window_refuted.
+    let c := LoggerQMid.run sched (LoggerQMid.init m ps) in
+    LoggerQMid.stopper c = LoggerQMid.SDone /\
+    LoggerQMid.at_stop c = [{| LoggerQMid.q_src := Some (O, O); LoggerQMid.q_text := [65%Z] |}] /\
+    map LoggerQMid.rets (LoggerQMid.prods c) = [[true]] /\
+    LoggerQMid.wrote c = [] /\ LoggerQMid.file c = [] /\
+    file_complete m ps (LoggerQMid.observe c) = false.
+Proof. exact MidWitness.c28_stop_window_intermediate_refuted_lemma. Qed.
+Print Assumptions c28_stop_window_intermediate_refuted.
 
 (* stop() called after all producers have made their calls (the situation of the property and
    of the correspondence runs): every line submitted at an enabled level is in the file, in
-   order, when stop() has returned and no push fell into the window. *)
+   order, when stop() has returned. *)
 Theorem c28_all_written_done : forall m ps s1 s2,
   no_marker m ps = true ->
   let c1 := run s1 (init m ps) in
   stopper c1 = SIdle -> all_done c1 = true ->
   let c2 := run s2 (step c1 Stop) in
-  stopper c2 = SDone -> win c2 = [] ->
+  stopper c2 = SDone ->
   forall i p, nth_error ps i = Some p -> filter (from i) (wrote c2) = elems m i 0 p.
 Proof. exact c28_all_written_done_lemma. Qed.
 Print Assumptions c28_all_written_done.
@@ -129,7 +131,6 @@ Theorem c28_oracle_ok : forall m ps s1 s2,
   NoDup (concat (map (must_write m) ps)) -> no_marker m ps = true ->
   stopper (run s1 (init m ps)) = SIdle -> all_done (run s1 (init m ps)) = true ->
   stopper (run s2 (step (run s1 (init m ps)) Stop)) = SDone ->
-  win (run s2 (step (run s1 (init m ps)) Stop)) = [] ->
   c28_ok m ps (observe (run s2 (step (run s1 (init m ps)) Stop))) = true.
 Proof. exact c28_oracle_ok_lemma. Qed.
 Print Assumptions c28_oracle_ok.
@@ -175,8 +176,8 @@ Theorem c28_nonvacuous :
   no_marker 18 nv_ps = true /\
   let c1 := run [P 1; P 0; P 1; P 0; P 0] (init 18 nv_ps) in
   stopper c1 = SIdle /\ all_done c1 = true /\ length (queue c1) = 4%nat /\
-  let c2 := run (Stop :: repeat Cons 12 ++ [Stop; Stop]) (step c1 Stop) in
-  stopper c2 = SDone /\ win c2 = [] /\
+  let c2 := run (Stop :: repeat Cons 15 ++ [Stop; Stop]) (step c1 Stop) in
+  stopper c2 = SDone /\
   file c2 = [(1%nat, [68%Z]); (2%nat, [65%Z]); (3%nat, [69%Z]); (4%nat, [67%Z])] /\
   map rets (prods c2) = [[true; true; true]; [true; true]] /\
   c28_ok 18 nv_ps (observe c2) = true.
